@@ -131,6 +131,7 @@ def payload_of(t, i):
 LIST2 = ['flush', 'readw', 'readw', 'clse']          # list whose reply arrives in two WRITEs
 PUSH2 = ['flush', 'flush', 'readw', 'clse']          # push that needs two WRITEs (maxdata 64, 40 bytes)
 PUSH2FAIL = ['flush', 'flush', 'readw', 'raise']     # the same push rejected by the device right after SEND
+REFUSED = ['refused']                                 # exploration only: a command whose OPEN the device refuses (CLSE with remote id 0)
 PULLFAIL = ['pullfail']                               # exploration only: a pull whose local sink raises at its first write, while the device
                                                       # still has a WRITE (the DONE record) in flight; the stream is then closed by the host
 
@@ -152,6 +153,7 @@ class World(object):
             self.dev.fs.add('/' + t, b'x' * (11 * (i + 1)), mode=0o100000 + i + 1, mtime=1000 + i)
             self.dev.fs.dirs['/' + t] = [(('e-' + t).encode(), i + 1, 10 + i, 100 + i)]
         self.dev.service_for = self.service_for
+        self.dev.refuse_open = lambda dest: (lambda d_: d_.startswith(b'shell:') and prog.get(d_[6:].decode('utf8', 'replace')) == REFUSED)(dest.rstrip(b'\0'))
         self.clock = simdev.VClock()
         self.core = transports.PipeCore(self.dev, rec=self.rec, clock=self.clock)
         self.core.defer = True
@@ -227,6 +229,8 @@ class World(object):
             return lambda: d.shell(t, decode=False)
         if p == ['close']:
             return lambda: d.close()
+        if p == REFUSED:
+            return lambda: d.shell(t, decode=False)
         if p == PULLFAIL:
             import io as _io
 
@@ -441,6 +445,8 @@ def api_name(p):
         return 'shell'
     if p == ['close']:
         return 'close'
+    if p == REFUSED:
+        return 'shell'
     if p == PULLFAIL:
         return 'pull'
     if p == []:
